@@ -14,7 +14,7 @@ Section Crash.
   Context {V Ch Req D : Type}.
   Context (candidate : V -> Ch -> V) (candidate_rb : V -> Ch -> V) (rollback_of : V -> Ch -> Ch)
           (overlay : V -> V -> V) (commit_merge : N -> N -> V -> V -> Ch -> V)
-          (payload : N -> V -> Ch -> option Req) (record_applied : N -> V -> V -> V -> Ch -> V)
+          (payload : N -> V -> Ch -> option Req) (record_applied : N -> N -> V -> V -> V -> Ch -> V)
           (touched : N -> V -> Ch -> V) (restore : V -> V -> V)
           (resync_payload : V -> list (option Req)) (doc_ok : V -> bool)
           (dev_apply : D -> Req -> D) (stamp : N -> Ch -> Ch) (v_empty : V) (d_empty : D) (ch_empty : Ch).
@@ -242,7 +242,7 @@ Section Crash.
     let w1 := step w (LRec (CtlProp (t, i)) 1 o) in
     sendable w1 t i P C m req /\
     dev_answer w1 t (c_term C) o' = o_answer o' /\
-    rec_prop o' w1 (t, i) = after_answer t i P C m req (o_answer o').
+    rec_prop o' w1 (t, i) = after_answer (o_order o') t i P C m req (o_answer o').
   Proof.
     intros Hs Ha w1.
     assert (Hw1 : w1 = apply_eff w (EDev (DevSet t m (c_term C) (Some i) req COk))).
@@ -314,7 +314,7 @@ Section Crash.
     classify (observed (dev_answer w t (c_term C) o)) = ClsFail f ->
     let w1 := step w (LRec (CtlProp (t, i)) 1 o) in
     sendable w1 t i P C m req /\ devs w1 = devs w /\
-    rec_prop o' w1 (t, i) = after_answer t i P C m req (dev_answer w t (c_term C) o').
+    rec_prop o' w1 (t, i) = after_answer (o_order o') t i P C m req (dev_answer w t (c_term C) o').
   Proof.
     intros Hs Hne Hc w1.
     pose proof (refusal_effects candidate candidate_rb rollback_of overlay commit_merge payload record_applied touched restore
